@@ -414,8 +414,7 @@ Definition no_alias_of_struct (st : pstate) : bool :=
 Definition no_msg_in_struct (st : pstate) : bool := forallb (fun d => forallb field_not_msg (pd_fields d)) (ps_structs st).
 (* construct class 3 (JavaScript): "field whose type is an alias" *)
 Definition no_alias_field (st : pstate) : bool := forallb (fun d => forallb field_not_alias (pd_fields d)) (all_defs st).
-(* MATLAB always reads RTMA.typedefs.RTMA_MSG_HEADER *)
-Definition has_msg_header (st : pstate) : bool := existsb (fun d => String.eqb (pd_name d) "RTMA_MSG_HEADER") (ps_structs st).
+(* MATLAB reads RTMA.typedefs.RTMA_MSG_HEADER only when it is emitted: has_msg_header / has_header_alias are in Model/Emit.v *)
 
 Lemma alias_section al : forallb alias_is_nat al = true ->
   Forall (fun e => exists s n, e = Def s n) (flat_map alias_events al) /\
@@ -538,9 +537,9 @@ Qed.
 
 (* ------------------------------------------------------------------ MATLAB *)
 Theorem scoped_matlab st : InvSt st -> no_alias_of_struct st = true -> no_msg_in_struct st = true ->
-  has_msg_header st = true -> scoped [] (events_matlab st) = true.
+  scoped [] (events_matlab st) = true.
 Proof.
-  intros [Hall Hss Hmm] Hna Hnm Hh. unfold no_alias_of_struct in Hna. apply andb_true_iff in Hna. destruct Hna as [Ha Hfa].
+  intros [Hall Hss Hmm] Hna Hnm. unfold no_alias_of_struct in Hna. apply andb_true_iff in Hna. destruct Hna as [Ha Hfa].
   rewrite Forall_app in Hall. destruct Hall as [Hall_s Hall_m].
   destruct (alias_section _ Ha) as [A1 A2].
   unfold events_matlab. rewrite scoped_app, (scoped_defs_only _ _ A1). simpl.
@@ -573,10 +572,16 @@ Proof.
     - destruct Hev as [Hev|[]]. subst ev. exists NMsg, (pf_ty p). split; [reflexivity|]. right. split; [reflexivity|].
       apply mnames_incl. apply G1. exact K. }
   destruct (scoped_section_before _ _ _ _ PM) as [M1 M2].
-  rewrite scoped_app, M1. simpl. rewrite andb_true_r. apply mem_id_in. apply M2. left. apply S2. right.
-  exists "RTMA_MSG_HEADER". split; [reflexivity|].
-  unfold has_msg_header in Hh. apply existsb_exists in Hh. destruct Hh as (d & Hd & Hn). apply String.eqb_eq in Hn.
-  unfold names. rewrite <- Hn. apply in_map. exact Hd.
+  rewrite scoped_app, M1. simpl. unfold matlab_header_events.
+  destruct (has_msg_header st) eqn:Hh; [|destruct (has_header_alias st) eqn:Hal; [|reflexivity]].
+  - simpl. rewrite andb_true_r. apply mem_id_in. apply M2. left. apply S2. right.
+    exists "RTMA_MSG_HEADER". split; [reflexivity|].
+    unfold has_msg_header in Hh. apply existsb_exists in Hh. destruct Hh as (d & Hd & Hn). apply String.eqb_eq in Hn.
+    unfold names. rewrite <- Hn. apply in_map. exact Hd.
+  - simpl. rewrite andb_true_r. apply mem_id_in. apply M2. left. apply S2. left. apply A2.
+    exists "RTMA_MSG_HEADER". split; [reflexivity|].
+    unfold has_header_alias in Hal. apply existsb_exists in Hal. destruct Hal as (a & Hain & Hn). apply String.eqb_eq in Hn.
+    unfold anames. rewrite <- Hn. apply in_map. exact Hain.
 Qed.
 
 (* ------------------------------------------------------------------ JavaScript *)
